@@ -333,15 +333,28 @@ inductive ASOut where
   | outOfFuel         -- (no longer produced: the slow path has no retry loop)
   deriving DecidableEq, Repr, Inhabited
 
+/-- the same event twice (same ID, same JSON): what the slot check of `VerifyAuthRulesAtState` lets pass -/
+def sameEvent (a b : Event) : Bool :=
+  a.eventID == b.eventID && Json.encodeCanon (.obj a.obj) == Json.encodeCanon (.obj b.obj)
+
+/-- Some (type, state_key) slot is held by two DIFFERENT events of the list.  The Go loop visits the returned
+    `map[string]PDU` in a random order and refuses at the first event whose slot is already taken by another
+    event: whatever the order, it refuses exactly when such a pair exists. -/
+def slotClash (S : List Event) : Bool :=
+  S.any (fun a => a.stateKey.isSome &&
+    S.any (fun b => b.stateKey.isSome && ((b.type == a.type && b.stateKey == a.stateKey) && !sameEvent a b)))
+
 /-- the slow path: "fetch the events at this state and check auth": EVERY event of the returned state is
-    added to a fresh `AuthEvents` provider (an event without a state key makes `AddEvent` fail: refused), then
-    `Allowed`.  `kvs` lists the returned `map[string]PDU` in the order the Go loop happens to visit it; for a
-    state (no two events in one (type, state_key) slot) the resulting provider answers every lookup alike
-    whatever the order. -/
+    added to a fresh `AuthEvents` provider (an event without a state key makes `AddEvent` fail: refused; an
+    event whose (type, state_key) slot is already held by a different event: refused — before that repair the
+    survivor, hence the verdict, depended on the iteration order of the Go map), then `Allowed`.  `kvs` lists the
+    returned `map[string]PDU` in the order the Go loop happens to visit it; with no two different events in one
+    slot the resulting provider answers every lookup alike whatever the order. -/
 def atStateSlow {P} (O : Oracles P) (sp : StateProvider) (e : Event) (ids : List Bytes) (log : Log) : ASOut × Log :=
   match sp.state e ids with
   | none => (.stateErr, log ++ [.state e.eventID])
   | some kvs =>
+    if slotClash (kvs.map (·.2)) then (.notAllowed, log ++ [.state e.eventID]) else
     match addAll O (kvs.map (·.2)) O.empty with
     | none => (.notAllowed, log ++ [.state e.eventID])
     | some p => (if O.allowedBy e p then .ok else .notAllowed, log ++ [.state e.eventID])
